@@ -104,7 +104,9 @@ def tlc(ctx, module, cfg, workers=None, timeout=900, heap="4g", simulate=None, d
     ctx.states += st["distinct"]
     ctx.transitions += st["generated"]
     if expect_ok and (rc != 0 or errors):
-        tail = subprocess.run(["tail", "-n", "25", outp], capture_output=True, text=True).stdout
+        with open(outp, errors="replace") as f:
+            tl = [x[:300] for x in f.read().splitlines() if not x.startswith("<<")]
+        tail = "\n".join(tl[-25:])
         raise Infra("TLC failed on %s (rc=%d): %s\n%s" % (module, rc, errors[:3], tail))
     return outputs, st
 
@@ -297,6 +299,8 @@ def report(ctx, events, rejects, nontrivial=None, key=None, rule="", exhaustive=
     for idx in sorted(rejects):
         ev = events[idx]
         for reason in rejects[idx]:
+            if reason.startswith("infra-"):
+                raise Infra("harness/specification disagreement (%s) on event %d: %s" % (reason, idx, json.dumps(trim(ev))[:800]))
             hit = None
             for entry in known:
                 if match_known(entry, ctx.id, ev, reason):
